@@ -2,6 +2,7 @@ import DriverLib.Ops
 import DriverLib.ShapeOps
 import DriverLib.IndexOps
 import DriverLib.ReduceOps
+import DriverLib.UnaryOps
 open Lean
 namespace Drv
 open Gonnx
@@ -13,8 +14,15 @@ def padTo (ins : List (Option DT)) (n : Nat) : List (Option DT) := ins ++ List.r
 regenerated registry); then the operator model -/
 def runOp (op : String) (attrs : Json) (ins : List (Option DT)) : Answer :=
   match gate Generated.registry op (dtsOf ins) with
-  | .error e => { model := .ofErr e, tags := ["gate-refuses"],
-                  spec := { domain := if e == .panic then "unspecified" else "mayRefuse" } }
+  | .error e =>
+    if op == "Cast" && e == .inputType && ins.length == 1 then
+      -- C11 quantifies over all ten numeric source types: a numeric source refused by the gate is judged
+      -- against the conversion the operator would have to perform
+      let a := runConstOp op attrs ins
+      { model := .ofErr e, spec := a.spec, tags := ["gate-refuses"], guard := ["cast.source_refused_by_gate"] }
+    else
+      { model := .ofErr e, tags := ["gate-refuses"],
+        spec := { domain := if e == .panic then "unspecified" else "mayRefuse" } }
   | .ok padded =>
     let ins := padTo ins padded.length
     if isArith op || isCmp op || isLogic op then runOpBinary op attrs ins
@@ -22,6 +30,8 @@ def runOp (op : String) (attrs : Json) (ins : List (Option DT)) : Answer :=
     else if isIndexOp op then runIndexOp op attrs ins
     else if op == "Concat" then runConcat attrs ins
     else if isReduceOp op then runReduceOp op attrs ins
+    else if isUnaryOp op then runUnaryOp op attrs ins
+    else if isConstOp op then runConstOp op attrs ins
     else { model := { status := "unmodelled" } }
 
 end Drv
